@@ -84,6 +84,7 @@ struct CommWorld {
     eager_child: u64,
     dt_max: u64,
     long_sleep: u64,
+    limited: bool, // some read() of the session has a size limit
     poll_until: Option<u64>, // set while the parent waits in a poll with a timeout: the moment that poll gives up
     in_poll: bool,
     fault_pm: u64,
@@ -367,7 +368,13 @@ impl Kernel for CommWorld {
             self.problem("C01", "poll() does not include the stdin descriptor although input is still pending".into());
         }
         if let Some(e) = self.fault(&[libc::EINTR]) {
-            let (n, dt) = self.choice();
+            let (n, mut dt) = self.choice();
+            // a signal interrupts a wait that is under way: with nothing ready, part of the timeout has already elapsed
+            let ready_now = (fi && self.rev_in() != 0) || (fo && self.rev_out() != 0) || (fe && self.rev_err() != 0);
+            if !ready_now && timeout_ms > 0 {
+                let whole = timeout_ms as u64 * NS_PER_MS;
+                dt += whole / 10 * (3 + self.rng.below(6));
+            }
             self.now += dt;
             self.since = self.now;
             self.events.push(format!("p:{}:{}:{}:{}=e{}", callstr, n, dt, e, e));
@@ -438,6 +445,10 @@ impl Kernel for CommWorld {
                 self.delivered + buf.len()
             );
             self.problem("C02", m.clone());
+            if self.limited {
+                // across size-limited reads the remaining input keeps being delivered, once and in order (C03)
+                self.problem("C03", format!("across size-limited reads: {}", m));
+            }
             if self.had_timeout {
                 // resumption after a timed-out read: the rest of the input must be delivered exactly once (C04)
                 self.problem("C04", format!("after a timed-out read: {}", m));
@@ -668,6 +679,7 @@ pub fn run_case(p: &mut Popen, c: &Case) -> CaseOut {
         eager_child: c.eager_child,
         dt_max: c.dt_max,
         long_sleep: c.long_sleep,
+        limited: c.session.iter().any(|(l, _)| l.is_some()),
         poll_until: None,
         in_poll: false,
         fault_pm: c.fault_pm,
@@ -811,6 +823,10 @@ pub fn run_case(p: &mut Popen, c: &Case) -> CaseOut {
                 let all_eof = (!c.has_out || (!w.out_wr && w.out_buf.is_empty())) && (!c.has_err || (!w.err_wr && w.err_buf.is_empty()));
                 if !all_eof {
                     w.problem("C03", "a successful read returned all-empty data although a captured stream has not reached end-of-file".into());
+                    if !w.out_buf.is_empty() || !w.err_buf.is_empty() {
+                        // all-empty means end-of-file to the caller: the bytes still in the pipe are lost to it (C02)
+                        w.problem("C02", format!("a successful read returned all-empty data while {} + {} bytes the child wrote are still unread: they are lost to the caller", w.out_buf.len(), w.err_buf.len()));
+                    }
                 }
             }
             // C01/C02: a successful unlimited exchange ends only at EOF of everything, with the input delivered and stdin closed
@@ -925,7 +941,7 @@ pub fn gen_case(rng: &mut Rng, idx: usize, big: bool) -> Case {
     let (cap_in, cap_out, cap_err) = (cap(rng), *rng.pick(&[1usize, 100, 4096, 65536, 65536]), *rng.pick(&[1usize, 4096, 65536]));
     // child script
     let mut script = vec![];
-    let style = rng.below(8);
+    let style = rng.below(9);
     let nact = 1 + rng.below(if big { 60 } else { 14 }) as usize;
     let mut produced = 0usize;
     for i in 0..nact {
@@ -979,6 +995,15 @@ pub fn gen_case(rng: &mut Rng, idx: usize, big: bool) -> Case {
                 } else if i % 4 == 1 {
                     let n = *rng.pick(&[70_000usize, 140_000]);
                     CAct::Write(i % 8 != 5, pattern(rng, n, false))
+                } else {
+                    CAct::Sleep
+                }
+            }
+            // a slow, mostly silent child that keeps its streams open: time limits have to fire while nothing happens
+            8 => {
+                if i == 3 {
+                    let n = 1 + rng.below(20) as usize;
+                    CAct::Write(rng.chance(1, 2), pattern(rng, n, false))
                 } else {
                     CAct::Sleep
                 }
@@ -1082,6 +1107,15 @@ pub fn gen_case(rng: &mut Rng, idx: usize, big: bool) -> Case {
             session.push((lim, tl));
         }
     }
+    if style == 8 && !string_api {
+        // the silent child is there for the time limits: every read of the session has one
+        if session.iter().all(|(_, t)| t.is_none()) {
+            session = vec![(None, None); 1 + rng.below(3) as usize];
+        }
+        for r in session.iter_mut() {
+            r.1 = Some(*rng.pick(&[100 * NS_PER_MS, 2_000 * NS_PER_MS]));
+        }
+    }
     let _ = idx;
     let tiny_ok = in_len + produced <= 3000;
     let (cap_out, cap_err) = if tiny_ok { (cap_out, cap_err) } else { (cap_out.max(4096), cap_err.max(4096)) };
@@ -1098,9 +1132,9 @@ pub fn gen_case(rng: &mut Rng, idx: usize, big: bool) -> Case {
         session,
         wseed: rng.next(),
         eager_child: *rng.pick(&[0u64, 1, 1, 3, 8]),
-        dt_max: *rng.pick(&[0u64, 1000, 300_000, 3 * NS_PER_MS, 400 * NS_PER_MS]),
-        long_sleep: *rng.pick(&[0u64, 0, 3 * NS_PER_MS, 60 * NS_PER_MS, 1500 * NS_PER_MS]),
-        fault_pm: *rng.pick(&[0u64, 0, 0, 0, 15]),
+        dt_max: if style == 8 { *rng.pick(&[1000u64, 300_000]) } else { *rng.pick(&[0u64, 1000, 300_000, 3 * NS_PER_MS, 400 * NS_PER_MS]) },
+        long_sleep: if style == 8 { 1500 * NS_PER_MS } else { *rng.pick(&[0u64, 0, 3 * NS_PER_MS, 60 * NS_PER_MS, 1500 * NS_PER_MS]) },
+        fault_pm: if style == 8 { *rng.pick(&[0u64, 120, 300]) } else { *rng.pick(&[0u64, 0, 0, 0, 15, 120]) },
         string_api,
     }
 }
